@@ -364,6 +364,23 @@ func (b *vSstBuilt) open(stack string, snap int, lower, upper []byte) *vSstStack
 	return s
 }
 
+// setBounds re-binds the same real merging iterator (Iterator.SetBounds does this to its
+// mergingIter, which forwards to every levelIter and from there to the open table iterator).
+func (b *vSstBuilt) setBounds(s *vSstStack, lo, hi int) {
+	if s.dead {
+		return
+	}
+	defer func() {
+		if p := recover(); p != nil {
+			s.dead = true
+			fmt.Printf("DRIVER-PANIC setb: %v\n", p)
+		}
+	}()
+	lower, upper := vSstBound(b.u, lo, 0), vSstBound(b.u, hi, b.u.R())
+	s.keep = append(s.keep, lower, upper)
+	s.it.SetBounds(lower, upper)
+}
+
 func (b *vSstBuilt) op(s *vSstStack, o string, k int) (res []int) {
 	if s.dead {
 		return []int{-2}
@@ -420,8 +437,19 @@ func (b *vSstBuilt) op(s *vSstStack, o string, k int) (res []int) {
 // thresholds that are step functions of the key (what compactions of key
 // ranges produce), tombstones cut where their level changes, fragmented per
 // level, levels cut into files.
-func vSstGenLayout(rng *rand.Rand, u *vSstUniv, nl, q int) *vSstLayout {
+//
+// dense=true concentrates everything on a window of 2-4 adjacent user keys: many versions of a
+// key and several overlapping tombstones (fragments with several sequence numbers) inside ONE
+// level, points between them in sequence number, and a read sequence number anywhere in the
+// history (snapshots that see only part of a level's tombstones).
+func vSstGenLayout(rng *rand.Rand, u *vSstUniv, nl, q int, dense bool) *vSstLayout {
 	r := u.R()
+	w0, w1 := 0, r // keys are drawn from [w0, w1)
+	if dense {
+		kw := 2 + rng.IntN(3)
+		w0 = rng.IntN(r - kw + 1)
+		w1 = w0 + kw
+	}
 	th := make([][]int, nl+1) // th[i][k]: level i (1-based) holds seqs in (th[i][k], th[i-1][k]]
 	th[0] = make([]int, r)
 	for k := range th[0] {
@@ -464,9 +492,12 @@ func vSstGenLayout(rng *rand.Rand, u *vSstUniv, nl, q int) *vSstLayout {
 	seen := map[[2]int]bool{}
 	kinds := []int{1, 1, 1, 0, 2, 7, 18}
 	np := rng.IntN(16)
+	if dense {
+		np = 3 + rng.IntN(10)
+	}
 	id := 1
 	for i := 0; i < np; i++ {
-		k, s := rng.IntN(r), 1+rng.IntN(q)
+		k, s := w0+rng.IntN(w1-w0), 1+rng.IntN(q)
 		if seen[[2]int{k, s}] {
 			continue
 		}
@@ -481,9 +512,24 @@ func vSstGenLayout(rng *rand.Rand, u *vSstUniv, nl, q int) *vSstLayout {
 		pts[lv] = append(pts[lv], []int{k, s, kd, v})
 	}
 	nr := rng.IntN(5)
+	if dense {
+		nr = 2 + rng.IntN(4)
+	}
 	for i := 0; i < nr; i++ {
 		a := rng.IntN(r)
 		b := a + 1 + rng.IntN(r-a)
+		if dense {
+			// around the window: may start one key before it and end one key after it
+			lo, hi := w0, w1
+			if lo > 0 {
+				lo--
+			}
+			if hi < r {
+				hi++
+			}
+			a = lo + rng.IntN(hi-lo)
+			b = a + 1 + rng.IntN(hi-a)
+		}
 		s := 1 + rng.IntN(q)
 		start, cur := a, levelOf(a, s)
 		for k := a + 1; k <= b; k++ {
@@ -496,7 +542,7 @@ func vSstGenLayout(rng *rand.Rand, u *vSstUniv, nl, q int) *vSstLayout {
 		}
 	}
 	l := &vSstLayout{Snap: q + 1}
-	if rng.IntN(3) == 0 {
+	if rng.IntN(3) == 0 || (dense && rng.IntN(2) == 0) {
 		l.Snap = 1 + rng.IntN(q+1)
 	}
 	for lv := 1; lv <= nl; lv++ {
@@ -586,10 +632,68 @@ type vSstPtState struct {
 	fwd    bool
 }
 
+func (st *vSstPtState) rebind(lo, hi int) {
+	*st = vSstPtState{lo: lo, hi: hi, st: "unpos", pfx: -1, fwd: true}
+}
+
+// observe updates the contract state from the real result of call o(k).
+func (st *vSstPtState) observe(u *vSstUniv, o string, k int, res []int) {
+	forward := o != "last" && o != "seeklt" && o != "prev"
+	switch o {
+	case "first", "last", "seekge", "seeklt":
+		st.pfx = -1
+	case "seekprefixge":
+		st.pfx = k / (u.S + 1)
+	}
+	st.fwd = forward
+	switch {
+	case len(res) == 4 && res[0] >= 0:
+		st.st = "at"
+		if st.pfx >= 0 && res[0]/(u.S+1) != st.pfx {
+			st.st = "undef"
+		}
+	case len(res) == 0 && (st.pfx >= 0 || o == "nextprefix"):
+		st.st = "undef"
+	case len(res) == 0 && forward:
+		st.st = "after"
+	case len(res) == 0:
+		st.st = "before"
+	default:
+		st.st = "undef"
+	}
+}
+
+func (st *vSstPtState) canNext() bool {
+	return (st.pfx < 0 && (st.st == "at" || st.st == "before")) || (st.pfx >= 0 && st.st == "at")
+}
+func (st *vSstPtState) canPrev() bool { return st.pfx < 0 && (st.st == "at" || st.st == "after") }
+
+// vSstNextBounds draws the bounds of a reuse: the window moves forward (mostly to the adjacent
+// window), backward, or anywhere.
+func vSstNextBounds(rng *rand.Rand, r, lo, hi int) (int, int) {
+	switch m := rng.IntN(5); {
+	case m <= 1 && hi < r:
+		nlo := hi
+		if rng.IntN(3) == 0 {
+			nlo = hi + rng.IntN(r-hi)
+		}
+		return nlo, nlo + 1 + rng.IntN(r-nlo)
+	case m <= 3 && lo > 0:
+		nhi := lo
+		if rng.IntN(3) == 0 {
+			nhi = 1 + rng.IntN(lo)
+		}
+		return rng.IntN(nhi), nhi
+	}
+	nlo := rng.IntN(r)
+	return nlo, nlo + 1 + rng.IntN(r-nlo)
+}
+
 // vSstGenOps generates in-contract calls while executing them on the leader stack.
 func vSstGenOps(rng *rand.Rand, b *vSstBuilt, s *vSstStack, h, lo, hi, n int, tr *vSstTrace) []vSstEv {
 	u := b.u
-	st := &vSstPtState{lo: lo, hi: hi, st: "unpos", pfx: -1, fwd: true}
+	st := &vSstPtState{}
+	st.rebind(lo, hi)
 	var script []vSstEv
 	for i := 0; i < n; i++ {
 		type cand struct {
@@ -616,6 +720,9 @@ func vSstGenOps(rng *rand.Rand, b *vSstBuilt, s *vSstStack, h, lo, hi, n int, tr
 		if st.pfx < 0 && st.st == "at" && st.fwd {
 			cs = append(cs, cand{"nextprefix", 3})
 		}
+		if st.st != "unpos" {
+			cs = append(cs, cand{"setb", 2})
+		}
 		tot := 0
 		for _, c := range cs {
 			tot += c.w
@@ -627,6 +734,15 @@ func vSstGenOps(rng *rand.Rand, b *vSstBuilt, s *vSstStack, h, lo, hi, n int, tr
 				break
 			}
 			pick -= c.w
+		}
+		if o == "setb" {
+			nlo, nhi := vSstNextBounds(rng, u.R(), st.lo, st.hi)
+			b.setBounds(s, nlo, nhi)
+			e := vSstEv{"op": "setb", "h": h, "lo": nlo, "hi": nhi}
+			script = append(script, e)
+			tr.Emit(e)
+			st.rebind(nlo, nhi)
+			continue
 		}
 		k := 0
 		switch o {
@@ -642,29 +758,113 @@ func vSstGenOps(rng *rand.Rand, b *vSstBuilt, s *vSstStack, h, lo, hi, n int, tr
 		res := b.op(s, o, k)
 		script = append(script, vSstEv{"op": "it", "h": h, "o": o, "k": k, "f": 0})
 		tr.Emit(vSstEv{"op": "it", "h": h, "o": o, "k": k, "f": 0, "res": res})
-		forward := o != "last" && o != "seeklt" && o != "prev"
-		switch o {
-		case "first", "last", "seekge", "seeklt":
-			st.pfx = -1
-		case "seekprefixge":
-			st.pfx = k / (u.S + 1)
+		st.observe(u, o, k, res)
+	}
+	return script
+}
+
+// vSstGenScan generates, while executing on the leader stack, the systematic part of a
+// layout's script on iterator h (opened by the caller over [0, R)): a full forward and a full
+// reverse scan; at (up to maxKeys of) the user keys seen, a direction switch in both orders
+// (SeekGE k, Prev, Next / SeekLT k+1, Next, Prev); then the iterator is REUSED over a sequence
+// of windows (SetBounds; forward windows SeekGE+Next.., backward windows SeekLT+Prev..).
+func vSstGenScan(rng *rand.Rand, b *vSstBuilt, s *vSstStack, h, maxKeys int, tr *vSstTrace) []vSstEv {
+	u := b.u
+	st := &vSstPtState{}
+	st.rebind(0, u.R())
+	var script []vSstEv
+	call := func(o string, k int) []int {
+		res := b.op(s, o, k)
+		script = append(script, vSstEv{"op": "it", "h": h, "o": o, "k": k, "f": 0})
+		tr.Emit(vSstEv{"op": "it", "h": h, "o": o, "k": k, "f": 0, "res": res})
+		st.observe(u, o, k, res)
+		return res
+	}
+	isKV := func(r []int) bool { return len(r) == 4 && r[0] >= 0 }
+	seen := map[int]bool{}
+	var keys []int
+	for r, n := call("first", 0), 0; isKV(r) && n < 64; n++ {
+		if !seen[r[0]] {
+			seen[r[0]] = true
+			keys = append(keys, r[0])
 		}
-		st.fwd = forward
-		switch {
-		case len(res) == 4 && res[0] >= 0:
-			st.st = "at"
-			if st.pfx >= 0 && res[0]/(u.S+1) != st.pfx {
-				st.st = "undef"
+		r = call("next", 0)
+	}
+	for r, n := call("last", 0), 0; isKV(r) && n < 64; n++ {
+		r = call("prev", 0)
+	}
+	rng.Shuffle(len(keys), func(i, j int) { keys[i], keys[j] = keys[j], keys[i] })
+	if len(keys) > maxKeys {
+		keys = keys[:maxKeys]
+	}
+	for _, k := range keys {
+		call("seekge", k)
+		if st.canPrev() {
+			call("prev", 0)
+		}
+		if st.canNext() {
+			call("next", 0)
+		}
+		call("seeklt", k+1)
+		if st.canNext() {
+			call("next", 0)
+		}
+		if st.canPrev() {
+			call("prev", 0)
+		}
+	}
+	// reuse over windows
+	set := map[int]bool{}
+	for i, n := 0, 2+rng.IntN(4); i < n; i++ {
+		set[rng.IntN(u.R()+1)] = true
+	}
+	var cuts []int
+	for c := range set {
+		cuts = append(cuts, c)
+	}
+	sort.Ints(cuts)
+	var wins [][2]int
+	for i := 0; i+1 < len(cuts); i++ {
+		wins = append(wins, [2]int{cuts[i], cuts[i+1]})
+	}
+	back := rng.IntN(2) == 0
+	if back {
+		for i, j := 0, len(wins)-1; i < j; i, j = i+1, j-1 {
+			wins[i], wins[j] = wins[j], wins[i]
+		}
+	}
+	for _, w := range wins {
+		b.setBounds(s, w[0], w[1])
+		e := vSstEv{"op": "setb", "h": h, "lo": w[0], "hi": w[1]}
+		script = append(script, e)
+		tr.Emit(e)
+		st.rebind(w[0], w[1])
+		limit := 64
+		if rng.IntN(3) == 0 {
+			limit = rng.IntN(3)
+		}
+		if back {
+			for r, n := call("seeklt", w[1]), 0; isKV(r) && n < limit; n++ {
+				r = call("prev", 0)
 			}
-		case len(res) == 0 && (st.pfx >= 0 || o == "nextprefix"):
-			st.st = "undef"
-		case len(res) == 0 && forward:
-			st.st = "after"
-		case len(res) == 0:
-			st.st = "before"
-		default:
-			st.st = "undef"
+		} else {
+			for r, n := call("seekge", w[0]), 0; isKV(r) && n < limit; n++ {
+				r = call("next", 0)
+			}
 		}
+	}
+	return script
+}
+
+// vSstLeadScan opens iterator h over [0, R) on the leader stack, runs vSstGenScan and returns
+// the script (open + calls) for the replays on the other stacks and configurations.
+func vSstLeadScan(rng *rand.Rand, b *vSstBuilt, l *vSstLayout, stack string, h, maxKeys int, tr *vSstTrace) []vSstEv {
+	s := b.open(stack, l.Snap, nil, nil)
+	open := vSstEv{"op": "open", "h": h, "t": "pt", "lo": 0, "hi": b.u.R()}
+	tr.Emit(open)
+	script := append([]vSstEv{open}, vSstGenScan(rng, b, s, h, maxKeys, tr)...)
+	if !s.dead {
+		s.it.Close()
 	}
 	return script
 }
@@ -687,6 +887,9 @@ func vSstReplay(b *vSstBuilt, l *vSstLayout, stack string, script []vSstEv, tr *
 			}
 			s = b.open(stack, l.Snap, vSstBound(b.u, e.I("lo"), 0), vSstBound(b.u, e.I("hi"), b.u.R()))
 			tr.Emit(vSstEv{"op": "open", "h": e.I("h"), "t": "pt", "lo": e.I("lo"), "hi": e.I("hi")})
+		case "setb":
+			b.setBounds(s, e.I("lo"), e.I("hi"))
+			tr.Emit(vSstEv{"op": "setb", "h": e.I("h"), "lo": e.I("lo"), "hi": e.I("hi")})
 		case "it":
 			res := b.op(s, e.S("o"), e.I("k"))
 			tr.Emit(vSstEv{"op": "it", "h": e.I("h"), "o": e.S("o"), "k": e.I("k"), "f": 0, "res": res})
@@ -724,6 +927,7 @@ func TestVSstC33(t *testing.T) {
 	cfgs := vSstCfgs(tier)
 	stacks := []string{"v1", "v2"}
 	nEvents, nLayouts, nFiles := 0, 0, 0
+	scanKeys := vSstEnvInt("VERIF_SCANKEYS", 4)
 	if sf := os.Getenv("VERIF_SCRIPTFILE"); sf != "" {
 		u := vSstNewUniv(vSstEnvInt("VERIF_GP", 2), vSstEnvInt("VERIF_GS", 1))
 		f, err := os.Open(sf)
@@ -745,6 +949,9 @@ func TestVSstC33(t *testing.T) {
 			}
 			l := vSstLayoutFromEv(script[0])
 			nLayouts++
+			ops := script[1:]
+			srng := rand.New(rand.NewPCG(seed, uint64(nLayouts)))
+			led := false
 			for _, c := range cfgs {
 				b, err := vSstBuild(u, l, c)
 				if err != nil {
@@ -753,7 +960,12 @@ func TestVSstC33(t *testing.T) {
 					continue
 				}
 				for _, st := range stacks {
-					vSstReplay(b, l, st, script[1:], tr)
+					vSstReplay(b, l, st, ops, tr)
+					if !led {
+						// the first stack also generates the systematic scans of this layout (iterator 9)
+						led = true
+						ops = append(append([]vSstEv{}, ops...), vSstLeadScan(srng, b, l, st, 9, scanKeys, tr)...)
+					}
 				}
 				b.Close()
 			}
@@ -769,7 +981,12 @@ func TestVSstC33(t *testing.T) {
 	tr := vSstNewTrace(filepath.Join(out, fmt.Sprintf("c33d-%d.ndjson", seed)))
 	nFiles++
 	for i := 0; i < nl; i++ {
-		l := vSstNorm(vSstGenLayout(rng, u, 1+rng.IntN(4), 6+rng.IntN(5)))
+		var l *vSstLayout
+		if i%2 == 1 {
+			l = vSstNorm(vSstGenLayout(rng, u, 1+rng.IntN(3), 4+rng.IntN(5), true))
+		} else {
+			l = vSstNorm(vSstGenLayout(rng, u, 1+rng.IntN(4), 6+rng.IntN(5), false))
+		}
 		nLayouts++
 		var script []vSstEv
 		for ci, c := range cfgs {
@@ -797,6 +1014,7 @@ func TestVSstC33(t *testing.T) {
 							s.it.Close()
 						}
 					}
+					script = append(script, vSstLeadScan(rng, b, l, st, 3, scanKeys, tr)...)
 					continue
 				}
 				vSstReplay(b, l, st, script, tr)
